@@ -38,7 +38,7 @@ def _new_acc():
 
 def is_slow(sc, rewards):
     """games that legitimately need very many sweeps: a transition probability within 1e-2 of 1 (but not 1), or large rewards"""
-    if max(rewards) >= 50:
+    if max(rewards) >= 50 or sc.n > 40:
         return True
     for row in sc.tl:
         for lab, _ in row:
@@ -381,7 +381,7 @@ _FAMILIES = {}
 
 
 def _game_family(name, shard):
-    key = (name, shard.get("max_deg"), shard.get("focus_reward"))
+    key = (name, shard.get("max_deg"), shard.get("focus_reward"), shard.get("all_sizes"))
     if key not in _FAMILIES:
         if name == "U-F":
             _FAMILIES[key] = [U.U_F_build(c, shard.get("focus_reward", 1))[0] for c in U.U_F_cases(shard["max_deg"])]
@@ -390,6 +390,8 @@ def _game_family(name, shard):
         elif name in ("U-E", "U-C", "U-L", "U-R", "U-P2", "U-N", "U-W", "U-Z", "U-G"):
             _FAMILIES[key] = {"U-E": U.U_E_games, "U-C": U.U_C_games, "U-L": U.U_L_games, "U-R": U.U_R_games,
                               "U-P2": U.U_P2_games, "U-N": U.U_N_games, "U-W": U.U_W_games, "U-Z": U.U_Z_games, "U-G": U.U_G_games}[name]()
+        elif name == "U-A":
+            _FAMILIES[key] = U.U_A_games(U.U_A_SIZES_ALL if shard.get("all_sizes") else U.U_A_SIZES_QUICK)
         elif name == "U-X":
             from .inputs import small_example_games
             _FAMILIES[key] = small_example_games()
